@@ -330,7 +330,9 @@ type UserId { v: Int @goField(forceResolver: true) }
 type line_item { sku: String @goField(forceResolver: true) }
 `,
 		"gqlgen.yml": "schema:\n  - \"*.graphql\"\nexec:\n  filename: graph/generated.go\n  package: graph\n" +
-			"model:\n  filename: graph/model/models_gen.go\n  package: model\nresolver:\n  layout: follow-schema\n  dir: graph\n  package: graph\nskip_mod_tidy: true\nskip_validation: true\n",
+			"model:\n  filename: graph/model/models_gen.go\n  package: model\nresolver:\n  layout: follow-schema\n  dir: graph\n  package: graph\nskip_mod_tidy: true\nskip_validation: true\n" +
+			// several named extra fields of one Go type: their order must not depend on map iteration
+			"models:\n  ApiUser:\n    extraFields:\n      Session: {type: string}\n      Tenant: {type: string}\n      Region: {type: string}\n      Trace: {type: string}\n      Shard: {type: string}\n",
 	}})
 	return ps
 }
